@@ -3,9 +3,31 @@ package cache
 // Read-only handles for the verification harness (scratch copy only; never in /repo).
 
 import (
+	"sort"
 	"sync"
 	"time"
 )
+
+// VerifKeys lists the stored keys, sorted.
+func VerifKeys[M any](c Cache[M]) []CacheKey {
+	var out []CacheKey
+	switch x := c.(type) {
+	case *MemoryCache[M]:
+		x.mu.RLock()
+		for k := range x.entries {
+			out = append(out, k)
+		}
+		x.mu.RUnlock()
+	case *FileCache[M]:
+		x.mu.RLock()
+		for k := range x.entriesMetadata {
+			out = append(out, k)
+		}
+		x.mu.RUnlock()
+	}
+	sort.Slice(out, func(i, j int) bool { return out[i].Hex < out[j].Hex })
+	return out
+}
 
 func VerifByteSize[M any](c Cache[M]) int64 {
 	switch x := c.(type) {
